@@ -13,9 +13,10 @@
 (*   mat : d = <<x1, x2>>       1x2 f64 matrix                             *)
 (*   rec : d = <<x, y>>         record {x: .., y: ..}                      *)
 (*   tup : d = <<p, q>>         tuple (p, q)                               *)
-(*   set : d = <<1, 2>>         the set {1, 2}    tbl : a one-row table    *)
+(*   set : d = <<1, 2>>         the set {1, 2}                             *)
+(*   tbl : d = <<x1, y1, x2, y2, ..>>  table |x y| with rows (x1 y1), ..    *)
 (***************************************************************************)
-EXTENDS Naturals, Sequences, FiniteSets
+EXTENDS Integers, Sequences, FiniteSets
 
 CONSTANTS Names
 
@@ -41,6 +42,12 @@ A(a, n, m, v, i, mu, ok) == [a |-> a, n |-> n, m |-> m, k |-> NoName, v |-> v, i
 Def(s, n) == s[n] # Undef
 R(ok, s, mu) == [ok |-> ok, store |-> s, mut |-> mu]
 
+ApplyOp(i, x, y) == CASE i = 1 -> x + y [] i = 2 -> x - y [] OTHER -> x * y
+
+(* statements whose outcome the property leaves open (table += table panics into an error today): *)
+(* excluded from the bounded alphabet; trace validation checks only the frame for them             *)
+Unspecified(s, a) == a.a = "OpAssignVar" /\ s[a.n] # Undef /\ s[a.m] # Undef /\ s[a.n].cls = "tbl" /\ s[a.m].cls = "tbl"
+
 Effect(s, mu, a) ==
   LET n == a.n
       m == a.m IN
@@ -60,6 +67,15 @@ Effect(s, mu, a) ==
     [] a.a = "OpAssign" ->        \* n += 1 (scalars and matrices)
          IF Def(s, n) /\ n \in mu /\ s[n].cls \in {"sc", "mat"}
          THEN R(TRUE, [s EXCEPT ![n] = V(s[n].cls, [q \in 1..Len(s[n].d) |-> s[n].d[q] + 1])], mu) ELSE R(FALSE, s, mu)
+    [] a.a = "OpAssignVar" ->     \* n += m, n -= m, n *= m (a.i = 1, 2, 3): elementwise on equal classes, a scalar
+                                  \* source is broadcast over a matrix target, a record is APPENDED to a table as
+                                  \* a new row (+= only); ONLY n changes, m keeps its value
+         IF Def(s, n) /\ n \in mu /\ Def(s, m) /\ s[n].cls \in {"sc", "mat"} /\ s[m].cls \in {"sc", s[n].cls}
+         THEN R(TRUE, [s EXCEPT ![n] = V(s[n].cls, [q \in 1..Len(s[n].d) |->
+                          ApplyOp(a.i, s[n].d[q], IF s[m].cls = "sc" THEN s[m].d[1] ELSE s[m].d[q])])], mu)
+         ELSE IF Def(s, n) /\ n \in mu /\ Def(s, m) /\ s[n].cls = "tbl" /\ s[m].cls = "rec" /\ a.i = 1
+         THEN R(TRUE, [s EXCEPT ![n] = V("tbl", s[n].d \o s[m].d)], mu)
+         ELSE R(FALSE, s, mu)
     [] a.a = "FieldAssign" ->     \* n.x = 9 (records)
          IF Def(s, n) /\ n \in mu /\ s[n].cls = "rec"
          THEN R(TRUE, [s EXCEPT ![n] = V("rec", [s[n].d EXCEPT ![1] = 9])], mu) ELSE R(FALSE, s, mu)
